@@ -156,6 +156,69 @@ class InitMachine(Machine):
         return [(clear, ni, em)] + viol
 
 
+# ---------------------------------------------------------------------------------------------- R4d duplicates machine
+
+class DupMachine(Machine):
+    """clean_storage: a duplicate copy is removed only when the primary copy was just verified (its recomputed digest equals the
+    key) or after a verified duplicate replaced the primary copy; the replacement itself requires the duplicate to be verified.
+    State = (eq, ok): eq = the most recently computed digest is known to equal the key on this path; ok = removal authorised."""
+
+    def __init__(self, ctx, g, rule):
+        self.K, self.E = ctx.kinds, ctx.effects
+        self.rule = rule
+        self.top = g.top
+        self.hashvars = set()
+        for n in walk_local(g.top.fn.node):
+            if isinstance(n, ast.Assign) and isinstance(n.value, ast.Call) and norm(n.value.func) == 'compute_hash_and_size':
+                t = n.targets[0]
+                first = t.elts[0] if isinstance(t, ast.Tuple) and t.elts else t
+                if isinstance(first, ast.Name):
+                    self.hashvars.add(first.id)
+        self.unlinks = 0
+        self.replaces = 0
+
+    def initial(self, g):
+        return [(False, False)]
+
+    def edge_state(self, edge, st, node, g):
+        c = edge.cond
+        if c is None or c[1] is not self.top:
+            return st
+        e, pol = strip_not(c[0], c[2])
+        if isinstance(e, ast.Compare) and len(e.ops) == 1 and isinstance(e.ops[0], (ast.Eq, ast.NotEq)):
+            names = {x.id for x in ast.walk(e) if isinstance(x, ast.Name)}
+            if names & self.hashvars and len(names) == 2:
+                equal = pol if isinstance(e.ops[0], ast.Eq) else (not pol)
+                return (equal, st[1])
+        return st
+
+    def transfer(self, node, st, g):
+        eq, ok = st
+        viol = []
+        if node.frame is self.top:
+            if node.kind == 'loop' and isinstance(node.ast, ast.For) and isinstance(node.ast.iter, ast.Name) and not isinstance(getattr(node.ast, '_parent', None), (ast.For, ast.While, ast.If)):
+                # a new reference object of the outer loop: nothing verified yet
+                eq, ok = False, False
+            if node.kind == 'stmt' and isinstance(node.ast, ast.Assign):
+                t = node.ast.targets[0]
+                tn = {x.id for x in ast.walk(t) if isinstance(x, ast.Name)}
+                if tn & self.hashvars:
+                    eq = False
+                    # a fresh digest of something else does not withdraw an authorisation already earned by a replacement
+        for e in self.E.of(node):
+            if e[0] in ('REPLACE', 'RENAME', 'MOVE') and in_area(self.K, e[1], 'duplicates') and in_area(self.K, e[2], 'loose'):
+                self.replaces += 1
+                if not eq:
+                    viol.append(Violation(self.rule, node, st, 'a duplicate copy replaces the primary loose object on a path where the duplicate\'s recomputed digest is not known to equal the key'))
+                ok = True
+            elif e[0] == 'UNLINK' and in_area(self.K, e[1], 'duplicates'):
+                self.unlinks += 1
+                if not (ok or eq):
+                    viol.append(Violation(self.rule, node, st, 'a duplicate copy is removed on a path where neither the primary copy was verified (recomputed digest == key) nor a verified duplicate '
+                                          'replaced it: if the primary copy is corrupt the last good copy of the object is destroyed'))
+        return [(eq, ok)] + viol
+
+
 # ---------------------------------------------------------------------------------------------- helpers
 
 def _calls_in(fn):
@@ -714,6 +777,16 @@ def run(ctx):
     chk.require(m.sites.tracked_unlinks, f'{q}: no tracked unlink of loose files found')
     if not found:
         chk.ok(R4, q, f'{len(m.sites.tracked_unlinks)} tracked-unlink site(s)', detail='the unlinked keys are exactly those staged in this call (fed next to the staging site) and already committed')
+    # clean_storage: duplicates are removed only next to a verified primary copy / after a verified replacement
+    gcd = ctx.icfg('container:Container.clean_storage', {}, write_policy(depth=2), key='wp2')
+    dm = DupMachine(ctx, gcd, 'C02.R4')
+    viols, st = solve(gcd, dm)
+    chk.crash_points += st['pairs']
+    chk.require(dm.unlinks >= 2 and dm.replaces >= 1, f'clean_storage: duplicate handling not found (unlinks={dm.unlinks}, replaces={dm.replaces})')
+    for v in viols:
+        chk.bad(R4, 'container:Container.clean_storage', v.node.text(120), v.msg, where=v.node.where, witness=v.witness)
+    if not viols:
+        chk.ok(R4, 'container:Container.clean_storage', f'{dm.unlinks} duplicate-unlink / {dm.replaces} replace visit(s)', detail='duplicates removed only with a verified primary copy or after a verified duplicate replaced it')
     # clean_storage: loose unlinks keyed by query results only (after refresh: C05.R3)
     from .c04 import clean_sites
     gcs = ctx.icfg('container:Container.clean_storage', {}, write_policy(depth=5), key='wp5')
